@@ -295,6 +295,14 @@ func valuesEqual(x, y any) error {
 			return err
 		}
 
+		// x is not a stackage instance, so it
+		// cannot be equal to one
+		if _, ok := stackTypeAliasConverter(y); ok {
+			return errorf("Cannot compare stackage instances, cannot convert")
+		} else if _, ok = conditionTypeAliasConverter(y); ok {
+			return errorf("Cannot compare stackage instances, cannot convert")
+		}
+
 		// whatever they are, handle manually
 		return structsEqual(x, y)
 	case reflect.Slice, reflect.Array:
